@@ -20,16 +20,12 @@ def table(name):
     return deco
 
 
-MODULES = ('tables_gates', 'tables_cliff', 'tables_misc')
 
 
 def load_generators():
-    for mod in MODULES:
-        try:
-            __import__('vf.' + mod)
-        except ModuleNotFoundError as e:
-            if 'vf.' + mod not in str(e):
-                raise
+    import glob
+    for path in sorted(glob.glob(os.path.join(os.path.dirname(os.path.abspath(__file__)), 'tables_*.py'))):
+        __import__('vf.' + os.path.basename(path)[:-3])
 
 
 def regenerate(names):
